@@ -149,7 +149,7 @@ def make_h_scope(nlines):
                 ctx.assume(False)
             lines[0] += "  " + style + " page" + odd + "break"
         # the directive written in capitals, and followed by a reason that happens to mention the violation's own rule
-        plain = second == "none" and odd == "none" and form != "none" and (tool == "thailint" or nlines > 8)
+        plain = second == "none" and odd == "none" and form != "none" and ((tool == "thailint" and names != "own-full-upper") or nlines > 8)
         kw_case = ctx.pick("directive_case", ("as-documented", "capitals")) if plain else "as-documented"
         reason = ctx.pick("reason_after_the_directive", ("none", " - the magic-numbers here are fine", "  @ magic-numbers are fine")) if plain else "none"
         ctx.note("directive_case", kw_case)
